@@ -467,6 +467,22 @@ func banners() {
 			}
 		}
 	}
+	// rows longer than 2^16 pixels and columns taller than 2^16 rows, one of each per source type
+	for ti, st := range img.Types {
+		for gi, g := range [][2]int{{65537, 1}, {1, 65537}, {131073, 1}} {
+			if stop {
+				break
+			}
+			s := img.Spec{Type: st, Ratio: (ti + gi) % 6, Rect: [4]int{2, 1, 2 + g[0], 1 + g[1]}, Parent: [4]int{2, 1, 2 + g[0], 1 + g[1]}, Fill: "prng", Seed: ev.Seed() + uint64(n), PalN: 255}
+			d := img.Spec{Type: allDstTypes[(ti+gi)%len(allDstTypes)], Rect: [4]int{0, 0, g[0], g[1]}, Parent: [4]int{0, 0, g[0], g[1]}, Fill: "ramp", Seed: 9, PalN: 16}
+			c := Case{Src: s, Dst: d, Par: []int{1, 3, 16, 257}[(ti+gi)%4], Transform: Transforms[(ti*3+gi)%len(Transforms)]}
+			n++
+			if kd, wh, _ := check(c); kd != "" {
+				ev.Violation("transform", kd, wh, c)
+				stop = true
+			}
+		}
+	}
 	ev.Eval(n)
 	ev.NTAdd(n)
 	ev.Class("banners", n)
